@@ -750,8 +750,9 @@ class CSSSerializer:
             stacks = []
             for item in rule.seq:
                 type_, val = item.type, item.value
-                # a brace inside a string or URI is content, not a block
-                block = type_ not in ('STRING', 'URI')
+                # only a brace character opens or closes a block, not e.g. a
+                # string or an escaped identifier with that value
+                block = type_ == 'CHAR' or type_ == val
                 # PRE
                 if block and '}' == val:
                     # close last open item on stack
